@@ -81,6 +81,13 @@ def _isinstance(E, st, args, kw, n):
             yield st, vbool(v.t != 0)
             return
         # statically unrelated class, or a subclass relation not visible statically
+        real_v = E.real_object(S.CLASSES[v.ty.name].qual) if v.ty.name in S.CLASSES else None
+        real_sub = [q for q in names if isinstance(E.real_object(q), type) and isinstance(real_v, type)
+                    and issubclass(E.real_object(q), real_v)]
+        if real_sub:
+            tag = ops.UF("dyn_isinstance_" + "_".join(q.split(":")[1] for q in names), z3.IntSort(), z3.BoolSort())
+            yield st, vbool(z3.And(v.t != 0, tag(v.t)))
+            return
         if any(q.split(":")[1] in S.CLASSES and S.is_subclass(q.split(":")[1], v.ty.name) for q in names):
             tag = ops.UF("dyn_isinstance_" + "_".join(q.split(":")[1] for q in names), z3.IntSort(), z3.BoolSort())
             yield st, vbool(z3.And(v.t != 0, tag(v.t)))
